@@ -1,5 +1,242 @@
 import FcpptModel.Prelude.Proto
-/-! Driver for C09 — placeholder until the property's model is built. -/
+import FcpptModel.Model.C09
+/-!
+Driver for C09 — one history of tree operations over a forest of at most 4 heap roots.
+
+A node operand is a *selector*: a number `n` (the `n mod count`-th node of the forest in pre-order) or an explicit
+path `p0.2.1` (root 0, child 2, child 1).  Child indices are reduced modulo the child count.  Lines:
+
+```
+reset
+new V | del R | set A V
+pushb A V | pushf A V | ins A I V            push_back / push_front / insert(it, value)
+pushbt A B | pushft A B | inst A I B         the same with std::move(node B)
+popb A K | popf A K | rel A I K              pop_back / pop_front / release(it); K=1: result becomes a new root
+erase A I | eraser A I J | clear A | sort A
+swap A B | cpa A B | mva A B                 swap, copy assignment A = B, move assignment A = std::move(B)
+cpc B | mvc B                                new root by copy / move construction
+pre A | toroot A | depth A | level A | cpos A B | cposk A I | map A | eq A B
+```
+
+Result: `ok a=<path> [b=<path>] [some|none] | <dump>` for mutating operations, `q …` for observers, `skip:<why>` when
+the operation is not applicable (forest full, too big, empty child list, excluded misuse), `bad-op` for malformed lines.
+Dump: every root, node = value, `+`/`!` (is `parent_` the address of the owner / `nullptr` for a root), children in parentheses.
+-/
 namespace Fcppt.C09.Drv
-def main : IO Unit := Fcppt.Proto.run (fun _ => "not-built")
+open Fcppt.Proto Fcppt.C09 Fcppt.C09.PT
+
+def maxRoots : Nat := 4
+def growCap : Nat := 40
+def copyCap : Nat := 64
+
+mutual
+def pathsT (p : Path) : PT → List Path
+  | .node _ _ _ ks => p :: pathsL p 0 ks
+def pathsL (p : Path) (j : Nat) : List PT → List Path
+  | [] => []
+  | k :: ks => pathsT (p ++ [j]) k ++ pathsL p (j + 1) ks
+end
+
+def pathsF (j : Nat) : List PT → List Path
+  | [] => []
+  | t :: ts => pathsT [j] t ++ pathsF (j + 1) ts
+
+mutual
+def dumpT (exp : Option Nat) : PT → String
+  | .node i v p ks =>
+    toString v ++ (if p == exp then "+" else "!") ++
+      (match ks with
+       | [] => ""
+       | k :: ks' => "(" ++ dumpL (some i) (k :: ks') ++ ")")
+def dumpL (exp : Option Nat) : List PT → String
+  | [] => ""
+  | k :: ks => dumpT exp k ++ (match ks with | [] => "" | _ => " ") ++ dumpL exp ks
+end
+
+def dumpF (F : List PT) : String :=
+  match F with
+  | [] => "-"
+  | _ => " ".intercalate (F.map (dumpT none))
+
+def pathStr (p : Path) : String := ".".intercalate (p.map toString)
+
+def parsePath (s : String) : Option Path :=
+  if s.startsWith "p" then ((s.drop 1).toString.splitOn ".").mapM String.toNat? else none
+
+/-- resolve a selector against the current forest -/
+def sel (F : List PT) (tok : String) : Option Path :=
+  if tok.startsWith "p" then
+    match parsePath tok with
+    | some p => if (getF p F).isSome then some p else none
+    | none => none
+  else
+    match tok.toNat? with
+    | some n =>
+      let ps := pathsF 0 F
+      if ps.isEmpty then none else ps[n % ps.length]?
+    | none => none
+
+def count (F : List PT) : Nat := sizeL F
+
+def kidsLen (F : List PT) (a : Path) : Nat :=
+  match getF a F with
+  | some t => t.kids.length
+  | none => 0
+
+def done (s' : St) (head : String) : St × String := (s', head ++ " | " ++ dumpF s'.forest)
+
+def runOp (s : St) (op : Op) (head : String) : St × String :=
+  if !op.guard then (s, "skip:misuse") else
+  match step s op with
+  | .ok s' => done s' head
+  | .error e => (s, "fault:" ++ e.name)
+
+def mapFn (v : Int) : Int := 2 * v + 1
+
+def excStr {α} (f : α → String) : Except Fault α → String
+  | .ok a => f a
+  | .error e => "fault:" ++ e.name
+
+def handle (s : St) (toks : List String) : St × String :=
+  let F := s.forest
+  let full := F.length ≥ maxRoots
+  let big := count F ≥ growCap
+  match toks with
+  | ["reset"] => (St.init, "ok")
+  | ["new", v] =>
+    match v.toInt? with
+    | some v => if full then (s, "skip:full") else if big then (s, "skip:big") else runOp s (.new v) "ok"
+    | none => (s, "bad-op")
+  | ["del", r] =>
+    match r.toNat? with
+    | some r => if F.isEmpty then (s, "skip:empty") else
+        let r := r % F.length
+        runOp s (.del r) s!"ok r={r}"
+    | none => (s, "bad-op")
+  | ["set", a, v] =>
+    match sel F a, v.toInt? with
+    | some a, some v => runOp s (.setVal a v) s!"ok a={pathStr a}"
+    | _, _ => (s, "bad-op")
+  | [cmd, a, v] =>
+    match sel F a with
+    | none => (s, "bad-op")
+    | some a =>
+      let pa := pathStr a
+      if cmd == "pushb" || cmd == "pushf" then
+        match v.toInt? with
+        | some v => if big then (s, "skip:big") else
+            runOp s (.insV a (if cmd == "pushb" then .back else .front) v) s!"ok a={pa}"
+        | none => (s, "bad-op")
+      else if cmd == "pushbt" || cmd == "pushft" then
+        match sel F v with
+        | some b => runOp s (.insT a (if cmd == "pushbt" then .back else .front) b) s!"ok a={pa} b={pathStr b}"
+        | none => (s, "bad-op")
+      else if cmd == "popb" || cmd == "popf" then
+        match v.toNat? with
+        | some k =>
+          let keep := k != 0 && !full
+          let r := if kidsLen F a == 0 then "none" else "some"
+          runOp s (.pop a (if cmd == "popb" then .back else .front) keep) s!"ok a={pa} {r}"
+        | none => (s, "bad-op")
+      else if cmd == "erase" then
+        match v.toNat? with
+        | some i => if kidsLen F a == 0 then (s, "skip:empty") else
+            let i := i % kidsLen F a
+            runOp s (.erase a i) s!"ok a={pa} i={i}"
+        | none => (s, "bad-op")
+      else if cmd == "swap" || cmd == "cpa" || cmd == "mva" then
+        match sel F v with
+        | some b =>
+          let head := s!"ok a={pa} b={pathStr b}"
+          if cmd == "swap" then runOp s (.swap a b) head
+          else if cmd == "mva" then runOp s (.moveAssign a b) head
+          else
+            match getF b F with
+            | some tb => if count F + tb.size > copyCap then (s, "skip:big") else runOp s (.copyAssign a b) head
+            | none => (s, "bad-op")
+        | none => (s, "bad-op")
+      else if cmd == "cpos" then
+        match sel F v with
+        | some b =>
+          match getF a F, getF b F with
+          | some ta, some tb =>
+            (s, s!"q a={pa} b={pathStr b} cpos=" ++ (match childPosition ta tb with | some i => toString i | none => "none"))
+          | _, _ => (s, "bad-op")
+        | none => (s, "bad-op")
+      else if cmd == "cposk" then
+        match v.toNat?, getF a F with
+        | some i, some ta =>
+          if ta.kids.length == 0 then (s, "skip:empty") else
+          let i := i % ta.kids.length
+          match ta.kids[i]? with
+          | some tb => (s, s!"q a={pa} i={i} cpos=" ++ (match childPosition ta tb with | some i => toString i | none => "none"))
+          | none => (s, "bad-op")
+        | _, _ => (s, "bad-op")
+      else if cmd == "eq" then
+        match sel F v with
+        | some b =>
+          match getF a F, getF b F with
+          | some ta, some tb =>
+            let e := eqT ta tb
+            (s, s!"q a={pa} b={pathStr b} eq={b01 e} ne={b01 (!e)}")
+          | _, _ => (s, "bad-op")
+        | none => (s, "bad-op")
+      else (s, "bad-op")
+  | [cmd, a, x, y] =>
+    match sel F a with
+    | none => (s, "bad-op")
+    | some a =>
+      let pa := pathStr a
+      let len := kidsLen F a
+      if cmd == "ins" then
+        match x.toNat?, y.toInt? with
+        | some i, some v => if big then (s, "skip:big") else
+            let i := i % (len + 1)
+            runOp s (.insV a (.at i) v) s!"ok a={pa} i={i}"
+        | _, _ => (s, "bad-op")
+      else if cmd == "inst" then
+        match x.toNat?, sel F y with
+        | some i, some b =>
+            let i := i % (len + 1)
+            runOp s (.insT a (.at i) b) s!"ok a={pa} i={i} b={pathStr b}"
+        | _, _ => (s, "bad-op")
+      else if cmd == "rel" then
+        match x.toNat?, y.toNat? with
+        | some i, some k => if len == 0 then (s, "skip:empty") else
+            let i := i % len
+            runOp s (.pop a (.at i) (k != 0 && !full)) s!"ok a={pa} i={i}"
+        | _, _ => (s, "bad-op")
+      else if cmd == "eraser" then
+        match x.toNat?, y.toNat? with
+        | some i, some j =>
+            let i := i % (len + 1)
+            let j := j % (len + 1)
+            runOp s (.eraseRange a (min i j) (max i j)) s!"ok a={pa} i={min i j} j={max i j}"
+        | _, _ => (s, "bad-op")
+      else (s, "bad-op")
+  | [cmd, a] =>
+    match sel F a with
+    | none => (s, "bad-op")
+    | some a =>
+      let pa := pathStr a
+      match getF a F with
+      | none => (s, "bad-op")
+      | some t =>
+        if cmd == "clear" then runOp s (.clear a) s!"ok a={pa}"
+        else if cmd == "sort" then runOp s (.sort a) s!"ok a={pa}"
+        else if cmd == "cpc" then
+          if full then (s, "skip:full") else if count F + t.size > copyCap then (s, "skip:big")
+          else runOp s (.copyCtor a) s!"ok b={pa}"
+        else if cmd == "mvc" then
+          if full then (s, "skip:full") else runOp s (.moveCtor a) s!"ok b={pa}"
+        else if cmd == "pre" then (s, s!"q a={pa} pre=" ++ excStr intList (preOrder t))
+        else if cmd == "toroot" then (s, s!"q a={pa} toroot=" ++ excStr intList (toRoot F t))
+        else if cmd == "depth" then (s, s!"q a={pa} depth={depth t}")
+        else if cmd == "level" then (s, s!"q a={pa} level=" ++ excStr toString (level F t))
+        else if cmd == "map" then (s, s!"q a={pa} map=" ++ dumpT none (mapT mapFn s.next t))
+        else (s, "bad-op")
+  | _ => (s, "bad-op")
+
+def main : IO Unit := Proto.runState St.init handle
+
 end Fcppt.C09.Drv
